@@ -277,6 +277,14 @@ def add_tie():
     return _run_tie("translator:pams/market.py(_add_order)", src, lambda: py2coq_add.translate(REPO), "AddGen.v", "AddC04Proofs.v", "AddGen.")
 
 
+def cancel_tie():
+    """Market._cancel_order (C04, C08, C10): the acceptance of one cancel"""
+    import py2coq_cancel
+    src = os.path.join(REPO, "pams", "market.py")
+    return _run_tie("translator:pams/market.py(_cancel_order)", src, lambda: py2coq_cancel.translate(REPO), "CancelGen.v", "CancelC04Proofs.v",
+                    "CancelGen.")
+
+
 def runner_tie():
     """the per-order block of SequentialRunner._handle_orders, both copies (C09, C11)"""
     import py2coq_runner
